@@ -4,7 +4,8 @@ package proxy
 // pgwire client and a fake upstream that records every query text it receives.
 // Implementation-side oracle: every text the upstream received is exactly a text the
 // client sent, and the topics the KafSQL server reads for that full text (the real
-// sql.Parse + queryTopics on it) are all allowed by the ACL. Every connection is
+// sql.Parse + an independent restatement of what the server reads) are all allowed by a
+// reference implementation of the ACL semantics (path.Match called here, not the proxy's ACL). Every connection is
 // emitted, with the observations, as a Coq term for corr/SqlProxyCorr.v.
 
 import (
@@ -15,6 +16,8 @@ import (
 	"log"
 	"net"
 	"os"
+	"path"
+	"sort"
 	"strings"
 	"sync"
 	"testing"
@@ -154,6 +157,39 @@ func c37Run(cs c37Case) (obs c37Obs) {
 	return obs
 }
 
+// ---- reference ACL semantics, independent of the proxy's ACL type (code under test):
+// patterns are path.Match globs ('*', '?', '[a-z]', '[^x]', '\\' escapes); blank entries
+// are ignored; a pattern also matches a topic equal to it literally (this is what makes a
+// malformed pattern usable as a plain name); the deny list is consulted first, an empty
+// allow list allows everything else.
+func c37RefMatch(patterns []string, topic string) bool {
+	for _, p := range patterns {
+		p = strings.TrimSpace(p)
+		if p == "" {
+			continue
+		}
+		if p == "*" || p == topic {
+			return true
+		}
+		if ok, err := path.Match(p, topic); err == nil && ok {
+			return true
+		}
+	}
+	return false
+}
+func c37RefAllows(allow, deny []string, topic string) bool {
+	if c37RefMatch(deny, topic) {
+		return false
+	}
+	return len(allow) == 0 || c37RefMatch(allow, topic)
+}
+func c37RefAllowShow(allow, deny []string) bool {
+	if len(deny) > 0 {
+		return false
+	}
+	return len(allow) == 0 || c37RefMatch(allow, "*")
+}
+
 // c37Oracle checks the property on what the real code did; "" = holds.
 func c37Oracle(cs c37Case, obs c37Obs) (key, what string) {
 	if obs.err != "" {
@@ -181,11 +217,11 @@ func c37Oracle(cs c37Case, obs c37Obs) (key, what string) {
 		topics, show := c37UpstreamTopics(parsed)
 		var bad []string
 		for _, t := range topics {
-			if !acl.Allows(t) {
+			if !c37RefAllows(cs.Allow, cs.Deny, t) {
 				bad = append(bad, t)
 			}
 		}
-		if len(bad) == 0 && !(show && !acl.AllowShowTopics()) {
+		if len(bad) == 0 && !(show && !c37RefAllowShow(cs.Allow, cs.Deny)) {
 			continue
 		}
 		// classify by the structure of the text
@@ -566,9 +602,63 @@ func c37NearCase(r *vRand) c37Case {
 	return cs
 }
 
+// ---- ACLs using every glob feature of path.Match, with topics that match only through it
+type c37Glob struct {
+	pats   []string
+	topics []string // some match, some do not
+}
+
+var c37Globs = []c37Glob{
+	{[]string{"pii-?"}, []string{"pii-1", "pii-x", "pii-", "pii-12", "pii"}},
+	{[]string{"audit-[0-9]"}, []string{"audit-7", "audit-x", "audit-77", "audit-"}},
+	{[]string{"orders-[a-c]", "t[^x]"}, []string{"orders-a", "orders-d", "tx", "ty", "t"}},
+	{[]string{"events-20[0-9][0-9]", "*-tmp"}, []string{"events-2024", "events-1999", "x-tmp", "tmp", "events-20ab"}},
+	{[]string{"sec\\*ret"}, []string{"sec*ret", "secret", "sec\\*ret", "secxret"}},
+	{[]string{"[abc", "a[", "[]x]"}, []string{"[abc", "a", "a[", "b", "]", "x"}},
+	{[]string{"ord?rs", "?"}, []string{"orders", "ordrs", "ordxrs", "o", "or"}},
+	{[]string{"a\\?b", "[a-]x", "[!a]y"}, []string{"a?b", "axb", "-x", "ax", "by", "ay", "!y"}},
+	{[]string{" pii-? ", "", "metrics.[0-9]*"}, []string{"pii-9", "metrics.7", "metrics.x", "metrics.77.a"}},
+}
+
+func c37GlobCase(r *vRand) c37Case {
+	g := c37Gen{r}
+	gl := c37Globs[r.Intn(len(c37Globs))]
+	cs := c37Case{}
+	switch r.Intn(5) {
+	case 0, 1:
+		cs.Deny = gl.pats // the deny entries must bite
+	case 2:
+		cs.Allow, cs.Deny = []string{"*"}, gl.pats
+	case 3:
+		cs.Allow = gl.pats
+	default:
+		cs.Allow, cs.Deny = append([]string{"orders"}, gl.pats...), []string{gl.topics[r.Intn(len(gl.topics))]}
+	}
+	if r.Chance(60) {
+		cs.TTL, cs.Max = 3600, r.Range(2, 32)
+	}
+	n := r.Range(3, 8)
+	for i := 0; i < n; i++ {
+		t1 := gl.topics[r.Intn(len(gl.topics))]
+		t2 := gl.topics[r.Intn(len(gl.topics))]
+		if r.Chance(25) {
+			t1 = "orders"
+		}
+		q := g.nearQuery(r.Intn(7), t1, t2, r.Range(1, 9))
+		if r.Chance(15) {
+			q = "show topics"
+		}
+		cs.Msgs = append(cs.Msgs, []byte(q))
+	}
+	return cs
+}
+
 func c37GenCase(r *vRand) c37Case {
 	if r.Chance(40) {
 		return c37NearCase(r)
+	}
+	if r.Chance(35) {
+		return c37GlobCase(r)
 	}
 	g := c37Gen{r}
 	a := c37ACLs[r.Intn(len(c37ACLs))]
@@ -629,10 +719,12 @@ func c37Coq(cs c37Case, obs c37Obs) string {
 		fwd := i < len(obs.forwarded) && obs.forwarded[i]
 		msgs[i] = fmt.Sprintf("mkMsg %s %s %s %s %s %s", cqStr(text), cqBool(ok), cqList(ts), cqBool(show), cqBool(fwd), cqStr(cacheKey(text)))
 	}
-	var tab []string
+	var tab, real []string
 	for t := range topicSet {
-		tab = append(tab, fmt.Sprintf("(%s, (%s, %s))", cqStr(t), cqBool(matchPatterns(acl.Deny, t)), cqBool(matchPatterns(acl.Allow, t))))
+		tab = append(tab, fmt.Sprintf("(%s, (%s, %s))", cqStr(t), cqBool(c37RefMatch(cs.Deny, t)), cqBool(c37RefMatch(cs.Allow, t))))
+		real = append(real, fmt.Sprintf("(%s, %s)", cqStr(t), cqBool(acl.Allows(t))))
 	}
+	sort.Strings(real)
 	// deterministic order
 	for i := range tab {
 		for j := i + 1; j < len(tab); j++ {
@@ -648,11 +740,11 @@ func c37Coq(cs c37Case, obs c37Obs) string {
 		}
 		return cqList(items)
 	}
-	return fmt.Sprintf("mkCase %s %s %d %d %s %s", strs(cs.Allow), strs(cs.Deny), cs.TTL, cs.Max, cqList(tab), cqList(msgs))
+	return fmt.Sprintf("mkCase %s %s %d %d %s %s %s %s", strs(cs.Allow), strs(cs.Deny), cs.TTL, cs.Max, cqList(tab), cqList(real), cqBool(acl.AllowShowTopics()), cqList(msgs))
 }
 
 func TestVerifC37(t *testing.T) {
-	rep := vNewReport("C37", "client connections through the real proxy handleConn (fake pgwire client, fake upstream recording received texts): 2-8 query messages per connection; selects / joins / explain / show / describe over allowed and forbidden topics, texts of 400-700 bytes with the join or second topic placed around byte 512 (white-space or column-list padding), trailing ';' variants, SET/RESET/empty/garbage, exact repeats and same-cache-key variants (cache hits), near misses of an allowed statement on the same connection (topic / join-topic names differing in a digit, in a digit-only segment after '-' '.' '_', in trailing punctuation, quotes, inner white space, a non-ASCII letter; numbers in LIMIT / offset / literal positions) with ACLs allowing exactly one of the two names, keyword case and multi-byte white space; 11 ACL shapes (allow lists, deny lists, patterns, empty); cache off / tiny / large. Non-trivial = at least one text is forwarded and at least one refused, or a text longer than 512 bytes is involved; distinct = distinct (ACL, cache, messages)")
+	rep := vNewReport("C37", "client connections through the real proxy handleConn (fake pgwire client, fake upstream recording received texts): 2-8 query messages per connection; selects / joins / explain / show / describe over allowed and forbidden topics, texts of 400-700 bytes with the join or second topic placed around byte 512 (white-space or column-list padding), trailing ';' variants, SET/RESET/empty/garbage, exact repeats and same-cache-key variants (cache hits), near misses of an allowed statement on the same connection (topic / join-topic names differing in a digit, in a digit-only segment after '-' '.' '_', in trailing punctuation, quotes, inner white space, a non-ASCII letter; numbers in LIMIT / offset / literal positions) with ACLs allowing exactly one of the two names, ACLs written with every path.Match feature ('?', classes, negated classes, escapes, malformed patterns, blank entries) in allow and in deny lists over topics that match only through them, keyword case and multi-byte white space; 11 ACL shapes (allow lists, deny lists, patterns, empty); cache off / tiny / large. Non-trivial = at least one text is forwarded and at least one refused, or a text longer than 512 bytes is involved; distinct = distinct (ACL, cache, messages)")
 	var coq, jsons []string
 	runOne := func(cs c37Case, kind string) {
 		obs := c37Run(cs)
@@ -752,6 +844,12 @@ func TestVerifC37(t *testing.T) {
 			c37Case{Allow: []string{"events-2024"}, TTL: 60, Max: 8, Msgs: [][]byte{[]byte("select * from events-2024 limit 5"), []byte("select * from events-2025 limit 5"), []byte("select * from events-2024 limit 7")}},
 			c37Case{Deny: []string{"metrics.8"}, TTL: 60, Max: 8, Msgs: [][]byte{[]byte("select * from orders o join metrics.7 p on o._key = p._key"), []byte("select * from orders o join metrics.8 p on o._key = p._key")}},
 			c37Case{Allow: []string{"orders"}, TTL: 60, Max: 8, Msgs: [][]byte{[]byte("describe orders"), []byte("describe orders1"), []byte("describe 'orders'"), []byte("describe orders."), []byte("DESCRIBE ORDERS")}},
+		)
+		// deny entries that are globs without '*': they must still match
+		corpus = append(corpus,
+			c37Case{Deny: []string{"pii-?"}, Msgs: [][]byte{[]byte("select * from pii-1"), []byte("describe pii-x"), []byte("select * from orders o join pii-2 p on o._key = p._key"), []byte("select * from orders")}},
+			c37Case{Allow: []string{"*"}, Deny: []string{"audit-[0-9]"}, TTL: 60, Max: 8, Msgs: [][]byte{[]byte("show partitions from audit-7"), []byte("explain select * from audit-3"), []byte("select * from audit-x")}},
+			c37Case{Allow: []string{"orders-[a-c]", "t[^x]", "[abc"}, Msgs: [][]byte{[]byte("select * from orders-a"), []byte("select * from orders-d"), []byte("describe ty"), []byte("describe tx"), []byte("describe [abc")}},
 		)
 		if os.Getenv("VERIF_NO_CORPUS") != "" { // sensitivity experiments: generated cases only
 			corpus = nil
